@@ -174,6 +174,70 @@ fn stub_creation_ts(_p: &Path) -> DateTime<Local> {
     stub_now()
 }
 
+// ------------------------------------------------------------------------------------------------
+// RollState::new: start state of the criterion. std::fs::metadata is replaced by a model that
+// yields a Metadata whose len() is the symbolic size of the pre-existing file (cell 8), or ENOENT
+// (cell 9 = 1).
+fn stub_metadata<P: AsRef<Path>>(_p: P) -> std::io::Result<std::fs::Metadata> {
+    vs::cell_inc(10);
+    if vs::cell_get(9) == 1 {
+        return Err(std::io::Error::from_raw_os_error(2));
+    }
+    Ok(vs::zeroed_metadata())
+}
+fn stub_metadata_len(_m: &std::fs::Metadata) -> u64 {
+    vs::cell_get(8)
+}
+fn any_age() -> Age {
+    let a: u8 = kani::any();
+    kani::assume(a < 4);
+    match a {
+        0 => Age::Day,
+        1 => Age::Hour,
+        2 => Age::Minute,
+        _ => Age::Second,
+    }
+}
+
+// @verif prop=C08,C06 tier=quick timeout=600 bounds=criterion-in{Size(N),AgeOrSize(age,N)},N-and-existing-file-size-all-u64,append-on/off
+// RollState::new counts the content found at start when appending - for Size and for AgeOrSize alike - and starts at 0 otherwise, so that the first write into an over-limit appended file rotates.
+#[kani::proof]
+#[kani::unwind(6)]
+#[kani::stub(verif_support::reexp::catch_unwind, verif_support::stub_cu)]
+#[kani::stub(chrono::Local::now, stub_now)]
+#[kani::stub(get_creation_timestamp, stub_creation_ts)]
+#[kani::stub(std::fs::metadata, stub_metadata)]
+#[kani::stub(std::fs::Metadata::len, stub_metadata_len)]
+fn c08_rollstate_new_seeding() {
+    vs::link_all();
+    let n: u64 = kani::any();
+    let existing: u64 = kani::any();
+    vs::cell_set(8, existing);
+    vs::cell_set(9, 0);
+    let append: bool = kani::any();
+    let with_age: bool = kani::any();
+    let age = any_age();
+    let i = vs::Instant { y: 2024, mo: 2, d: 29, h: 23, mi: 59, s: 59, off: 0 };
+    vs::clock_push(i);
+    vs::clock_push(i);
+    let criterion = if with_age { Criterion::AgeOrSize(age, n) } else { Criterion::Size(n) };
+    let r = RollState::new(criterion, append, Path::new("d/b_rCURRENT.l"));
+    let want = if append { existing } else { 0 };
+    match r {
+        Ok(RollState::Size { max_size, current_size }) => {
+            assert!(!with_age && max_size == n && current_size == want);
+            // consequence: the very next write rotates iff the appended file is already over the limit
+            assert!(RollState::Size { max_size, current_size }.rotation_necessary() == (want > n));
+        }
+        Ok(RollState::AgeOrSize { max_size, current_size, .. }) => {
+            assert!(with_age && max_size == n && current_size == want);
+        }
+        _ => assert!(false),
+    }
+    kani::cover!(append && with_age && existing > n, "append to an over-limit file with AgeOrSize");
+    kani::cover!(!append && existing > 0, "no append: earlier content is not counted");
+}
+
 // ================================================================================================
 // State step harnesses ("glue level", DESIGN.md 3.5): one call of State::write_buffer /
 // mount_next_linewriter_if_necessary / flush / shutdown on a directly constructed Active state.
@@ -182,7 +246,7 @@ fn stub_creation_ts(_p: &Path) -> DateTime<Local> {
 // step's own logic is what CBMC executes: the rotation decision, the order rename -> open ->
 // reset -> cleanup -> write, size accounting, which writer receives the record, error handling.
 //
-// Event log (vs::ev_*):  1 = rename/close step (index_for_rcurrent), 2 = open_log_file,
+// Event log (vs::ev_*):  0x300 | id = writer `id` dropped (unmounted), 1 = rename/close step (index_for_rcurrent), 2 = open_log_file,
 //   3 = cleanup, 0x100 | id<<4 | len = write of `len` bytes to writer `id`, 0x200 | id = flush of
 //   writer `id`, 5 = error reported through eprint_err.
 // Cells: 0 = fault selector (1 = rename step fails, 2 = open fails, 3 = cleanup fails, 4 = write fails),
@@ -204,6 +268,12 @@ impl Write for RecW {
     fn flush(&mut self) -> std::io::Result<()> {
         vs::ev_push(0x200 | self.id);
         Ok(())
+    }
+}
+// dropping a writer = it was unmounted (replaced by the newly opened one)
+impl Drop for RecW {
+    fn drop(&mut self) {
+        vs::ev_push(0x300 | self.id);
     }
 }
 fn stub_index_for_rcurrent(_c: &FileLogWriterConfig, o_idx: Option<u32>, rotate: bool) -> Result<u32, std::io::Error> {
@@ -302,13 +372,10 @@ fn rec_mount_next(_s: &mut State, force: bool) -> Result<(), FlexiLoggerError> {
     Ok(())
 }
 
-// @verif prop=C01,C08,C19 tier=quick timeout=900 bounds=one-rotation-step,NumbersRCurrent(idx<1000),Size{max,cur}-all-u64,force-symbolic,fault-in{none,rename,open,cleanup}
-// (A) mount_next_linewriter_if_necessary from an arbitrary Active state (Numbers/rCURRENT, Size): rotates iff forced or the current file already holds more than N bytes; effects in the order rename -> open -> cleanup; afterwards index+1, size count 0, the new writer mounted; a failing rename or open returns Err before anything later happens and leaves the old writer mounted (nothing written is lost); no rotation -> no effect at all.
-step_harness! { 8,
-fn c01_rotate_numbers_size() {
+// Faults are concrete per instance (a symbolic fault selector keeps every io::Error path alive and
+// CBMC then unwinds the recursive error drop glue): 0 none, 1 rename fails, 2 open fails, 3 cleanup fails.
+fn rotate_numbers_size_case(fault: u64) {
     vs::link_all();
-    let fault: u64 = kani::any();
-    kani::assume(fault <= 3);
     vs::cell_set(0, fault);
     let idx: u32 = kani::any();
     kani::assume(idx < 1000);
@@ -327,15 +394,11 @@ fn c01_rotate_numbers_size() {
     } else if fault == 2 {
         assert!(!ok && vs::ev_len() == 2 && vs::ev_get(0) == 1 && vs::ev_get(1) == 2);
     } else {
-        assert!(vs::ev_len() == 3 && vs::ev_get(0) == 1 && vs::ev_get(1) == 2 && vs::ev_get(2) == 3);
+        // rename -> open -> old writer (id 0) released, i.e. the new one is mounted -> cleanup
+        assert!(vs::ev_len() == 4 && vs::ev_get(0) == 1 && vs::ev_get(1) == 2 && vs::ev_get(2) == 0x300 && vs::ev_get(3) == 3);
         assert!(ok == (fault != 3));
     }
-    // which writer is mounted afterwards: flush it and look at the id
-    let n0 = vs::ev_len();
-    state.flush().ok();
-    let mounted = vs::ev_get(n0) & 0xf;
     let new_mounted = rotate && fault != 1 && fault != 2;
-    assert!(mounted == if new_mounted { 1 } else { 0 });
     if let Inner::Active(Some(rs), _, _) = &state.inner {
         match (&rs.naming_state, &rs.roll_state) {
             (NamingState::NumbersRCurrent(i2), RollState::Size { max_size: m2, current_size: c2 }) => {
@@ -354,26 +417,42 @@ fn c01_rotate_numbers_size() {
     } else {
         unreachable!();
     }
-    kani::cover!(rotate && !force && fault == 0, "rotation by size");
-    kani::cover!(force && current_size <= max_size && fault == 0, "explicitly triggered rotation below the limit");
+    kani::cover!(rotate && !force, "rotation by size");
+    kani::cover!(force && current_size <= max_size, "explicitly triggered rotation below the limit");
     kani::cover!(!rotate && current_size == max_size, "exactly at the limit: no rotation");
-    kani::cover!(rotate && fault == 2, "open fails after the rename");
     std::mem::forget(state);
+}
+// @verif prop=C01,C08 tier=quick timeout=900 bounds=one-rotation-step,NumbersRCurrent(idx<1000),Size{max,cur}-all-u64,force-symbolic,no-fault
+// (A) mount_next_linewriter_if_necessary from an arbitrary Active state (Numbers/rCURRENT, Size): rotates iff forced or the current file already holds more than N bytes; effects in the order rename -> open -> cleanup; afterwards index+1, size count 0 and the new writer mounted; no rotation -> no effect at all.
+step_harness! { 8,
+fn c01_rotate_numbers_size() {
+    rotate_numbers_size_case(0);
+}
+}
+// @verif prop=C19,C01 tier=quick timeout=900 bounds=same,rename-step-fails(EACCES)
+// (A) with a failing rename: Err is returned before anything else happens, the old writer stays mounted, index and size count unchanged (nothing written is lost, rotation is retried at the next write).
+step_harness! { 8,
+fn c19_rotate_rename_fails() {
+    rotate_numbers_size_case(1);
+}
+}
+// @verif prop=C19,C01 tier=quick timeout=900 bounds=same,open-fails-after-rename(EACCES)
+// (A) with a failing open after the rename: Err, no cleanup, the old writer (now the renamed file) stays mounted so later records are not lost.
+step_harness! { 8,
+fn c19_rotate_open_fails() {
+    rotate_numbers_size_case(2);
+}
+}
+// @verif prop=C19,C07 tier=quick timeout=900 bounds=same,cleanup-fails(EIO)
+// (A) with a failing cleanup: the rotation itself is complete (new writer mounted, size count reset), the failure is returned to the caller for reporting.
+step_harness! { 8,
+fn c19_rotate_cleanup_fails() {
+    rotate_numbers_size_case(3);
 }
 }
 
-// @verif prop=C01,C08,C15,C19 tier=quick timeout=900 bounds=one-write_buffer-call,Size{max,cur}(cur<2^63),record-length<=8-symbolic,write-fault-optional
-// (B) write_buffer on an Active state: asks the rotation half exactly once (not forced) before writing, hands the whole record to the mounted writer in one piece exactly once, and only then adds its length to the size count; a failing write is returned as Err and the size count stays unchanged; an Active state is never re-initialised.
-#[kani::proof]
-#[kani::unwind(8)]
-#[kani::stub(verif_support::reexp::catch_unwind, verif_support::stub_cu)]
-#[kani::stub(chrono::Local::now, stub_now)]
-#[kani::stub(State::initialize, cut_initialize)]
-#[kani::stub(State::mount_next_linewriter_if_necessary, rec_mount_next)]
-#[kani::stub(crate::util::eprint_err, stub_eprint_err_ev)]
-fn c01_write_buffer_glue() {
+fn write_buffer_glue_case(wfault: bool) {
     vs::link_all();
-    let wfault: bool = kani::any();
     vs::cell_set(0, if wfault { 4 } else { 0 });
     let max_size: u64 = kani::any();
     let current_size: u64 = kani::any();
@@ -405,8 +484,72 @@ fn c01_write_buffer_glue() {
     } else {
         unreachable!();
     }
-    kani::cover!(ok && len == 8, "8-byte record written");
-    kani::cover!(!ok, "write failed");
+    kani::cover!(wfault || (ok && len == 8), "8-byte record written");
+    kani::cover!(!wfault || !ok, "write failed");
     kani::cover!(ok && len == 0, "empty record");
     std::mem::forget(state);
+}
+macro_rules! wb_harness {
+    (fn $name:ident() $body:block) => {
+        #[kani::proof]
+        #[kani::unwind(10)]
+        #[kani::stub(verif_support::reexp::catch_unwind, verif_support::stub_cu)]
+        #[kani::stub(chrono::Local::now, stub_now)]
+        #[kani::stub(State::initialize, cut_initialize)]
+        #[kani::stub(State::mount_next_linewriter_if_necessary, rec_mount_next)]
+        #[kani::stub(crate::util::eprint_err, stub_eprint_err_ev)]
+        fn $name() $body
+    };
+}
+// @verif prop=C01,C08,C15 tier=quick timeout=900 bounds=one-write_buffer-call,Size{max,cur}(cur<2^63),record-length<=8-symbolic,no-fault
+// (B) write_buffer on an Active state: asks the rotation half exactly once (not forced) before writing, hands the whole record to the mounted writer in one piece exactly once, and only then adds its length to the size count; an Active state is never re-initialised.
+wb_harness! {
+fn c01_write_buffer_glue() {
+    write_buffer_glue_case(false);
+}
+}
+// @verif prop=C19,C08 tier=probe timeout=900 bounds=same,write-fails(ENOSPC)
+// BUDGET GATE: does not finish (live io::Error path -> recursive error drop glue); not registered.
+// (B) with a failing write: Err is returned to the caller (who reports it) and the size count stays unchanged.
+wb_harness! {
+fn c19_write_buffer_write_fails() {
+    write_buffer_glue_case(true);
+}
+}
+
+// ------------------------------------------------------------------------------------------------
+// @verif prop=C07,C06 tier=quick timeout=600 bounds=all-NamingState-shapes(idx/timestamp-symbolic,current-infix-present/absent,Std/Custom-format)
+// NamingState::writes_direct() - the flag that makes cleanup spare the file currently written to - is true exactly for the namings that write directly into a rotated-style name (NumbersDirect, timestamps without a "current" infix), and infix_filter() selects the numbers filter for number namings and the timestamp filter (with the state's own format) otherwise.
+#[kani::proof]
+#[kani::unwind(8)]
+#[kani::stub(verif_support::reexp::catch_unwind, verif_support::stub_cu)]
+#[kani::stub(chrono::Local::now, stub_now)]
+fn c07_writes_direct_flag() {
+    vs::link_all();
+    let kind: u8 = kani::any();
+    kani::assume(kind < 6);
+    let idx: u32 = kani::any();
+    let i = any_instant(0);
+    let ts = dt_of(&i);
+    let ns = match kind {
+        0 => NamingState::NumbersRCurrent(idx),
+        1 => NamingState::NumbersDirect(idx),
+        2 => NamingState::Timestamps { current_timestamp: ts, the_current_infix: Some("rCURRENT".to_string()), infix_format: InfixFormat::Std },
+        3 => NamingState::Timestamps { current_timestamp: ts, the_current_infix: None, infix_format: InfixFormat::Std },
+        4 => NamingState::Timestamps { current_timestamp: ts, the_current_infix: Some("cur".to_string()), infix_format: InfixFormat::custom("%Y") },
+        _ => NamingState::Timestamps { current_timestamp: ts, the_current_infix: None, infix_format: InfixFormat::custom("%Y") },
+    };
+    let want_direct = kind == 1 || kind == 3 || kind == 5;
+    assert!(ns.writes_direct() == want_direct);
+    let f = ns.infix_filter();
+    match f {
+        InfixFilter::Numbrs => assert!(kind <= 1),
+        InfixFilter::Timstmps(InfixFormat::Std) => assert!(kind == 2 || kind == 3),
+        InfixFilter::Timstmps(InfixFormat::Custom(_)) => assert!(kind >= 4),
+        _ => assert!(false),
+    }
+    kani::cover!(kind == 3, "TimestampsDirect");
+    kani::cover!(kind == 5, "custom format without current infix");
+    std::mem::forget(ns);
+    std::mem::forget(f);
 }
